@@ -29,3 +29,15 @@ Theorem C13_unsafe_points :
   unsafe_points MetaThenData false true 1 2 = [2; 3; 6; 7; 8].
 Proof. exact (conj crash_points_first_save_lost (conj crash_points_first_save_flushed crash_points_overwrite_lost)). Qed.
 Print Assumptions C13_unsafe_points.
+
+(* Termination that reaches the worker as an exception (the second interrupt's SIGTERM in an application whose handler raises
+   SystemExit, inherited by the forked worker): the save is then ended by an exception inside the worker, at any effect
+   boundary, and with the failure handling read from the current BaseCache.save the entry is not reported as cached
+   afterwards, first save or overwrite, and no other key changed.  (For this class the full statement holds; it is the
+   instant-death classes above that are unsafe.) *)
+Theorem C13_terminated_by_exception_safe : forall order fl st k m d wm wd n,
+  is_cached (failed_save save_cleanup_src order fl st k m d wm wd n) k = false /\
+  consistent (failed_save save_cleanup_src order fl st k m d wm wd n) k = true /\
+  forall k', k' <> k -> get (failed_save save_cleanup_src order fl st k m d wm wd n) k' = get st k'.
+Proof. exact failed_save_safe. Qed.
+Print Assumptions C13_terminated_by_exception_safe.
